@@ -30,7 +30,6 @@ import (
 	"sync"
 	"time"
 
-	"github.com/gorilla/mux"
 	"github.com/inbucket/inbucket/v3/pkg/config"
 	"github.com/inbucket/inbucket/v3/pkg/extension"
 	"github.com/inbucket/inbucket/v3/pkg/message"
@@ -337,7 +336,7 @@ func setupRest(b restBehaviour, scratch string, rs *restServer) (*restEnv, error
 	e.mgr = &message.StoreManager{AddrPolicy: e.ap, Store: e.store, ExtHost: host}
 	hub := msghub.New(root.Web.MonitorHistory, host)
 	// as pkg/server/lifecycle.go FullAssembly, on a fresh router
-	web.Router = mux.NewRouter()
+	web.Router = web.NewRouter()
 	prefix := stringutil.MakePathPrefixer(root.Web.BasePath)
 	webui.SetupRoutes(web.Router.PathPrefix(prefix("/serve/")).Subrouter())
 	rest.SetupRoutes(web.Router.PathPrefix(prefix("/api/")).Subrouter())
